@@ -2,11 +2,18 @@
 (baton passing); they yield to the scheduler at every fake-transport operation and at every
 acquisition of the transaction lock.  The schedule is a list of integers
 (choice k mod number of runnable threads)."""
+import sys
 import threading
+import time as _realtime
 
 
 class Deadlock(Exception):
     pass
+
+
+# real time spent finding out that a scheduled thread sits in a synchronisation primitive the scheduler cannot see
+# (process-wide: checks use it as a budget, see C15)
+REAL_BLOCK_SECONDS = [0.0]
 
 
 class Sched(object):
@@ -35,8 +42,10 @@ class Sched(object):
                 fn()
             except BaseException as e:
                 self.errors.append((name, '%s: %s' % (type(e).__name__, e)))
+            parked = (w['state'] == 'parked-real')
             w['state'] = 'done'
-            self.main_ev.set()
+            if self.cur == name and not parked:
+                self.main_ev.set()
         w['thread'] = threading.Thread(target=body, daemon=True)
         self.workers[name] = w
         self.order.append(name)
@@ -48,10 +57,28 @@ class Sched(object):
         w['ev'].wait()
         w['ev'].clear()
 
+    def _me(self):
+        t = threading.current_thread()
+        for n, w in self.workers.items():
+            if w['thread'] is t:
+                return n
+        return None
+
     def yield_point(self, what):
-        if self.cur is None or threading.current_thread() is not self.workers[self.cur]['thread']:
+        if self.cur is None:
             return
-        self._yield(self.cur)
+        me = self._me()
+        if me is None:
+            return
+        if me != self.cur or self.workers[me]['state'] == 'parked-real':
+            # this thread was parked inside a primitive the scheduler cannot see (see run()) and has just been released by
+            # it: before it does anything observable it waits for the baton like everybody else
+            w = self.workers[me]
+            w['state'] = 'ready'
+            w['ev'].wait()
+            w['ev'].clear()
+            return
+        self._yield(me)
 
     def block_on(self, lock, deadline=None):
         name = self.cur
@@ -78,6 +105,16 @@ class Sched(object):
             if not runnable:
                 if all(w['state'] == 'done' for w in self.workers.values()):
                     return
+                if any(w['state'] == 'parked-real' for w in self.workers.values()):
+                    # threads sit in real primitives: whoever held what they wait for may just have released it
+                    t0 = _realtime.time()
+                    while _realtime.time() - t0 < 10 and not any(w['state'] in ('ready', 'done') and w.get('was_parked') for w in self.workers.values()):
+                        _realtime.sleep(0.01)
+                    woke = [w for w in self.workers.values() if w['state'] in ('ready', 'done') and w.get('was_parked')]
+                    for w in woke:
+                        w['was_parked'] = False
+                    if woke:
+                        continue
                 raise Deadlock('no runnable thread: %r' % [(n, w['state']) for n, w in self.workers.items()])
             c = self.choices[self.ci] if self.ci < len(self.choices) else 0
             self.ci += 1
@@ -91,11 +128,34 @@ class Sched(object):
             self.cur = n
             self.main_ev.clear()
             self.workers[n]['ev'].set()
-            if not self.main_ev.wait(300):
+            if not self._wait_for(n):
                 raise Deadlock('thread %s did not come back to the scheduler' % n)
             steps += 1
             if steps > self.max_steps:
                 raise Deadlock('livelock: more than %d scheduling steps' % self.max_steps)
+
+
+    def _wait_for(self, n):
+        """Wait until thread n hands the baton back.  If it sits motionless inside a C-level wait instead (a lock, condition or
+        queue that is not the rebound RLock: code under test may bring its own synchronisation), mark it 'parked-real' and let the
+        others run: it cannot do anything observable before its next yield point, where it queues for the baton again."""
+        w = self.workers[n]
+        ident = w['thread'].ident
+        same, lastpos, t0 = 0, None, _realtime.time()
+        while not self.main_ev.wait(0.02):
+            if _realtime.time() - t0 > 300:
+                return False
+            fr = sys._current_frames().get(ident)
+            pos = (id(fr.f_code), fr.f_lasti) if fr is not None else None
+            same = same + 1 if pos == lastpos else 0
+            lastpos = pos
+            if same >= 15 and w['state'] not in ('done',):
+                REAL_BLOCK_SECONDS[0] += _realtime.time() - t0
+                w['state'] = 'parked-real'
+                w['was_parked'] = True
+                self.blocked_someone = True
+                return True
+        return True
 
 
 def make_lock_class(get_sched):
